@@ -58,6 +58,7 @@ def plan(tier):
     p.append(("feedback", n // 2))
     p.append(("big", 40 if tier == "quick" else 1500))
     p.append(("nested", 40000 if tier == "quick" else 1200000))
+    p.append(("remerge", 25000 if tier == "quick" else 1500000))
     return p
 
 
@@ -148,9 +149,39 @@ def gen_nested(rng):
     return dict(pos=pos, fixed_key=fixed_key, entries=entries, mode="ordered")
 
 
+def gen_remerge(rng):
+    """Orthogonal tables of a dozen to forty mostly fully specified entries
+    over 4-7 key bits sharing two to four routes: every route has enough
+    entries for several rounds of merging, so that the product of one merge
+    is merged again later and has to travel past the products of others."""
+    k = rng.randint(4, 7)
+    pos = sorted(rng.sample(range(32), k))
+    n = rng.randint(12, min(40, (1 << k) - 2))
+    pool = [[6 + i] for i in range(rng.randint(2, 4))]
+    keys = rng.sample(range(1 << k), n)
+    full = (1 << k) - 1
+    entries = []
+    taken = set(keys)
+    for key in keys:
+        mask = full
+        if rng.random() < .12:
+            b = 1 << rng.randrange(k)
+            if (key ^ b) not in taken:
+                taken.add(key ^ b)
+                key &= ~b
+                mask &= ~b
+        r = rng.choice(pool)
+        src = [None] if rng.random() < .8 else gen_sources(rng, r)
+        entries.append((r, spread(key, pos), spread(mask, pos) |
+                        (0xffffffff & ~spread(full, pos)), src))
+    return dict(pos=pos, fixed_key=0, entries=entries, mode="orth")
+
+
 def gen_table(rng, cls, tier):
     if cls == "nested":
         return gen_nested(rng)
+    if cls == "remerge":
+        return gen_remerge(rng)
     if cls == "tiny":
         k = rng.randint(0, 2)
     elif cls == "big":
@@ -211,6 +242,8 @@ def gen(cls, idx, rng, tier):
         if t["mode"] == "orth":
             fns.append("rde_noalias")
     t["calls"] = [(f, targets(rng, n)) for f in fns]
+    if cls == "remerge":
+        t["calls"] = [(rng.choice(["oc", "occ", "mt"]), None)]
     if cls == "nested":
         t["calls"] = [(rng.choice(["oc", "occ", "mt"]), None)]
         if rng.random() < .3:
